@@ -50,54 +50,73 @@ Lemma date_of_eq c j y o : l_year (lbl c j) = y -> ordinal_of c j = o ->
   mkDate (cal_of c) y o (month_of_Z (l_month (lbl c j))) (l_day (lbl c j)) (day_ordinal_of c j) j = date_of c j.
 Proof. intros <- <-. unfold date_of. destruct (lbl c j) as [[y m] d]. reflexivity. Qed.
 
+(* The two proofs below are written against what Date::succ / Date::pred CALL (ordinal2ymddo, next_year_after,
+   prev_year_before, year_length, with which arguments) and not against the shape of their text: every fact that may be
+   needed is established first, then [sp_norm] rewrites with whatever applies, in whatever order the code asks. *)
+Ltac sp_norm :=
+  repeat first
+  [ progress cbn [bind]
+  | progress cbv zeta
+  | progress unfold Date_calendar, Date_year, Date_ordinal, Date_julian_day_number
+  | match goal with
+    | H : Date_f_calendar _ = _ |- _ => rewrite H
+    | H : Date_f_year _ = _ |- _ => rewrite H
+    | H : Date_f_ordinal _ = _ |- _ => rewrite H
+    | H : Date_f_jdn _ = _ |- _ => rewrite H
+    | H : ymddo_spec _ _ _ = _ |- _ => rewrite H
+    end
+  | rewrite u32_add_ok by range
+  | rewrite u32_sub_ok by range
+  | rewrite ordinal2ymddo_ok by (try assumption; range)
+  | rewrite next_year_after_ok by assumption
+  | rewrite prev_year_before_ok by assumption
+  | rewrite year_length_ok by assumption ].
+
 Theorem succ_ok c j : ValidCal c -> in_i32 j ->
   Date_succ (date_of c j) = Ret (if j <? i32_max then Some (date_of c (j + 1)) else None).
 Proof.
-  intros V Hj. unfold Date_succ. destruct (date_of_fields c j) as (Fc & Fy & Fo & Fj & _). rewrite Fj, Fy, Fo, Fc.
-  unfold i32_checked_add, Date_calendar. rewrite Fc.
+  intros V Hj. unfold Date_succ. destruct (date_of_fields c j) as (Fc & Fy & Fo & Fj & _).
+  unfold i32_checked_add. rewrite ?Fj.
   destruct (Z.ltb_spec j i32_max) as [Lt|Ge]; [|rewrite chko_none by range; reflexivity].
-  rewrite chko_ok by range. cbv zeta.
+  rewrite chko_ok by range.
   destruct (ordinal_closed c j V) as [B O]. set (y := l_year (lbl c j)) in *.
   pose proof (year_count_le c y) as [YC _].
   assert (Hy : in_i32 y) by (apply year_i32; exact Hj).
   assert (Hj1 : in_i32 (j + 1)) by range.
-  rewrite u32_add_ok by range. cbn [bind].
-  rewrite ordinal2ymddo_ok by (try assumption; range). cbn [bind].
   destruct (Z.lt_ge_cases (ordinal_of c j) (year_count c y)) as [Same|Last].
   - destruct (same_year_next c j V Same) as [NY NO]. fold y in NY.
-    pose proof (ymddo_of c (j + 1) V) as W. rewrite NY, NO in W. rewrite W.
-    f_equal. f_equal. apply date_of_eq; assumption.
+    pose proof (ymddo_of c (j + 1) V) as W. rewrite NY, NO in W.
+    sp_norm. f_equal. f_equal. apply date_of_eq; assumption.
   - assert (Eq : ordinal_of c j = year_count c y) by lia.
     destruct (new_year_next c j V Eq) as [NE NO]. fold y in NE.
     pose proof (next_year_spec c j V NE) as NX. fold y in NX.
-    unfold ymddo_spec at 1. replace ((ordinal_of c j + 1 <? 1) || (year_count c y <? ordinal_of c j + 1)) with true by lia.
+    assert (E1 : ymddo_spec c y (ordinal_of c j + 1) = Err (DateError_OrdinalOutOfRange y (ordinal_of c j + 1) (year_count c y))).
+    { unfold ymddo_spec. replace ((ordinal_of c j + 1 <? 1) || (year_count c y <? ordinal_of c j + 1)) with true by lia. reflexivity. }
     assert (Hy1 : in_i32 (l_year (lbl c (j + 1)))) by (apply year_i32; exact Hj1).
     assert (HY1 : in_i32 (y + 1)).
     { (* the next calendar year is at most the year of day j+1 *)
       rewrite !lbl_year_eq in *. unfold y. rewrite lbl_year_eq.
       destruct (is_old c j); [pose proof (jyear_spec j) as S; unfold J0 in S|pose proof (gyear_spec j) as S; unfold G0 in S]; range. }
-    rewrite next_year_after_ok by assumption. cbn [bind]. rewrite <- NX.
-    rewrite ordinal2ymddo_ok by (try assumption; range). cbn [bind].
-    pose proof (ymddo_of c (j + 1) V) as W. rewrite NO in W. rewrite W.
-    f_equal. f_equal. apply date_of_eq; [reflexivity|assumption].
+    pose proof (ymddo_of c (j + 1) V) as W. rewrite NO, NX in W.
+    assert (Hn : in_i32 (next_year c y)) by (rewrite <- NX; exact Hy1).
+    sp_norm. f_equal. f_equal. rewrite <- NX. apply date_of_eq; [reflexivity|assumption].
 Qed.
 
 Theorem pred_ok c j : ValidCal c -> in_i32 j ->
   Date_pred (date_of c j) = Ret (if i32_min <? j then Some (date_of c (j - 1)) else None).
 Proof.
-  intros V Hj. unfold Date_pred. destruct (date_of_fields c j) as (Fc & Fy & Fo & Fj & _). rewrite Fj, Fy, Fo, Fc.
-  unfold i32_checked_sub, Date_calendar. rewrite Fc.
+  intros V Hj. unfold Date_pred. destruct (date_of_fields c j) as (Fc & Fy & Fo & Fj & _).
+  unfold i32_checked_sub. rewrite ?Fj.
   destruct (Z.ltb_spec i32_min j) as [Gt|Le]; [|rewrite chko_none by range; reflexivity].
-  rewrite chko_ok by range. cbv zeta.
+  rewrite chko_ok by range.
   destruct (ordinal_closed c j V) as [B O]. set (y := l_year (lbl c j)) in *.
   pose proof (year_count_le c y) as [YC _].
   assert (Hy : in_i32 y) by (apply year_i32; exact Hj).
   assert (Hj1 : in_i32 (j - 1)) by range.
   destruct (Z.ltb_spec 1 (ordinal_of c j)) as [Same|First].
-  - rewrite u32_sub_ok by range. cbn [bind].
-    rewrite ordinal2ymddo_ok by (try assumption; range). cbn [bind].
-    destruct (same_year_prev c j V Same) as [NY NO]. fold y in NY.
-    pose proof (ymddo_of c (j - 1) V) as W. rewrite NY, NO in W. rewrite W.
+  - destruct (same_year_prev c j V Same) as [NY NO]. fold y in NY.
+    pose proof (ymddo_of c (j - 1) V) as W. rewrite NY, NO in W.
+    sp_norm. replace (1 <? ordinal_of c j) with true by lia. sp_norm.
     f_equal. f_equal. apply date_of_eq; assumption.
   - assert (Eq : ordinal_of c j = 1) by lia.
     destruct (new_year_prev c j V Eq) as [NE NO]. fold y in NE.
@@ -106,10 +125,10 @@ Proof.
     assert (HY1 : in_i32 (y - 1)).
     { rewrite !lbl_year_eq in *. unfold y. rewrite lbl_year_eq.
       destruct (is_old c j); [pose proof (jyear_spec j) as S; unfold J0 in S|pose proof (gyear_spec j) as S; unfold G0 in S]; range. }
-    cbn [bind]. rewrite ?Fc. rewrite prev_year_before_ok by assumption. cbn [bind]. rewrite ?Fc. rewrite <- NX.
-    rewrite year_length_ok by assumption. cbn [bind]. rewrite ?Fc.
     pose proof (year_count_le c (l_year (lbl c (j - 1)))) as [YC' _].
-    rewrite ordinal2ymddo_ok by (try assumption; range). cbn [bind].
-    pose proof (ymddo_of c (j - 1) V) as W. rewrite NO in W. rewrite W.
-    f_equal. f_equal. apply date_of_eq; [reflexivity|assumption].
+    pose proof (ymddo_of c (j - 1) V) as W. rewrite NO, NX in W.
+    assert (Hn : in_i32 (prev_year c y)) by (rewrite <- NX; exact Hy1).
+    rewrite NX in YC'.
+    sp_norm. replace (1 <? ordinal_of c j) with false by lia. sp_norm.
+    f_equal. f_equal. rewrite <- NX. apply date_of_eq; [reflexivity|assumption].
 Qed.
